@@ -34,9 +34,14 @@ graph 18/18, dfirsem 16 caught + 1 that cannot surface as wrong output, hydro 16
 p = os.path.join(V, "DESIGN.md")
 s = open(p).read()
 marker = "### 9.10 Seeded breaking changes"
+tail_marker = "### 9.11 "
+tail = ""
+if tail_marker in s:
+    tail = "\n" + s[s.index(tail_marker):]
+    s = s[:s.index(tail_marker)]
 if marker in s:
-    s = s[:s.index(marker)].rstrip("\n") + "\n\n" + sec
+    s = s[:s.index(marker)].rstrip("\n") + "\n\n" + sec + tail
 else:
-    s = s.rstrip("\n") + "\n\n" + sec
+    s = s.rstrip("\n") + "\n\n" + sec + tail
 open(p, "w").write(s)
 print("DESIGN.md §9.10 regenerated,", table.count("\n") - 2, "rows")
